@@ -87,7 +87,7 @@ def halflock_proof(chk, consts, timeout=600):
     m = re.search(r"All (\d+) obligations proved", p.stdout)
     chk.extra.setdefault("proofs", []).append({
         "module": "HalfLockProof.tla", "tool": "tlapm (TLAPS 1.6; SMT / Zenon / Isabelle back ends)",
-        "theorem": "Spec => []NoUseAfterFree, for any set of readers and of snapshot addresses (reused after free)",
+        "theorem": "Spec => [](NoUseAfterFree /\\ NoDoubleFree), for any set of readers and of snapshot addresses (reused after free)",
         "obligations_proved": int(m.group(1)) if m else 0, "all_proved": bool(m), "wall_s": wall})
     print("  PRF %-40s %s in %.1fs" % ("HalfLockProof.tla (TLAPS)", m.group(0) if m else "NOT all obligations proved", wall),
           flush=True)
